@@ -18,15 +18,15 @@ MANIFEST = dict(
          'recv1_agrees: every byte stream, every chunking, every message list, by functional induction, '
          'no size bound) and of security.TwistedWrapper (hs_gate, hs_authenticated, '
          'hs_no_echo_no_delivery, hs_fail_closed, hs_tail_in_order, hs_no_struct_error: invariants over '
-         'every chunk list and every verify/decrypt behaviour). The models are tied to the three real '
+         'every chunk list and every verify/decrypt behaviour; hs_any_chunking: any cutting of the stream, '
+         'handshake included, gives the same deliveries, closure, completion and residual state as delivery '
+         'in one piece, for every oracle that rejects the empty message). The models are tied to the three real '
          'dataReceived loops, message.send/receive and TwistedWrapper.process by a correspondence run on '
          'every check; the prefix width is regenerated from the struct formats in the source.',
     note='Trusted: Lean kernel; axioms propext/Classical.choice/Quot.sound only; tools/gen_c14.py; '
          'harness fakes (transport, identity pickle shim, table-driven PGP fake, fixed challenge text). '
-         'Assumed: Twisted delivers nothing after loseConnection. Not proved (stated in '
-         'Props/C14Handshake.lean): chunking independence of the handshake phase itself as a theorem '
-         '(it is checked by the monitor on every case: chunked vs whole delivery); str.strip() of the echo '
-         'is not modelled. Real sockets and kernel chunking are not exercised (the theorem proves '
+         'Assumed: Twisted delivers nothing after loseConnection. str.strip() of the echo is not modelled (the harness sends echoes without surrounding white '
+         'space); hs_any_chunking assumes verify rejects the empty message. Real sockets and kernel chunking are not exercised (the theorem proves '
          'independence from chunking).',
     technique='Lean 4 proof by functional induction on the frame loop and invariants of the handshake + differential correspondence',
     design='7/C14',
